@@ -22,6 +22,7 @@ type fpAPI struct {
 	size     int
 	c        []uint64 // reduction constants for edge limbs
 	specials [][]byte
+	pairs    [][]byte // boundary values whose whole cross product is run (see pairKinds)
 	zeros    [][]byte // every encoding of 0 that fits
 	add, sub, mul  func(z, x, y unsafe.Pointer)
 	sqr, neg, inv  func(z, x unsafe.Pointer)
@@ -129,6 +130,44 @@ func init() {
 	}
 }
 
+// pairValues is the operand list of the boundary-pair kinds: the boundary
+// values of `specials` plus the neighbourhoods of c, 2^(8n)-c for every
+// reduction constant c (a borrow or carry that is folded with c can borrow or
+// carry a second time only when one operand is within c of 0 and the other
+// within c of 2^(8n); random and single-boundary draws meet that pair about
+// once in 2000 operations).
+func (a *fpAPI) pairValues() [][]byte {
+	if a.pairs != nil {
+		return a.pairs
+	}
+	lim := new(big.Int).Lsh(big.NewInt(1), uint(8*a.size))
+	seen := map[string]bool{}
+	var out [][]byte
+	put := func(b []byte) {
+		if !seen[string(b)] {
+			seen[string(b)] = true
+			out = append(out, b)
+		}
+	}
+	for _, b := range a.specials {
+		put(b)
+	}
+	for _, c := range a.c {
+		for d := int64(-1); d <= 1; d++ {
+			lo := new(big.Int).Add(new(big.Int).SetUint64(c), big.NewInt(d))
+			hi := new(big.Int).Sub(lim, lo)
+			if lo.Sign() >= 0 {
+				put(leBytes(lo, a.size))
+			}
+			if hi.Sign() >= 0 && hi.Cmp(lim) < 0 {
+				put(leBytes(hi, a.size))
+			}
+		}
+	}
+	a.pairs = out
+	return out
+}
+
 // operand draws one field operand: a boundary value, limb-edge bytes or
 // random bytes (all 2^(8*size) byte strings are legal operands).
 func (a *fpAPI) operand(r *lib.Rng) []byte {
@@ -234,7 +273,45 @@ func (a *fpAPI) kinds(q, th int) []kind {
 			}
 		}
 	}
+	pv := a.pairValues()
+	// pair runs op over the whole cross product pv x pv (k enumerates it; the
+	// same count in both tiers), alternating distinct and z == x operands.
+	pair := func(name string, run func(t *triple, o *rec, alt bool)) kind {
+		return kind{n + "." + name, len(pv) * len(pv), len(pv) * len(pv), func(r *lib.Rng, k int, o *rec) {
+			t := a.alloc(k)
+			defer t.free()
+			x, y := pv[k%len(pv)], pv[k/len(pv)%len(pv)]
+			o.In("x", x)
+			o.In("y", y)
+			copy(t.b(0), x)
+			copy(t.b(1), y)
+			lib.Count("c14/Field/" + n + ":boundary-pair")
+			run(t, o, (k/len(pv)+k)&1 == 1)
+		}}
+	}
+	pairBin := func(op func(z, x, y unsafe.Pointer)) func(t *triple, o *rec, alt bool) {
+		return func(t *triple, o *rec, alt bool) {
+			if !alt {
+				op(t.p(2), t.p(0), t.p(1))
+				o.Out("x-after", t.b(0))
+				o.Out("y-after", t.b(1))
+				a.canon(o, "z", t, 2)
+			} else {
+				op(t.p(0), t.p(0), t.p(1))
+				o.Out("y-after", t.b(1))
+				a.canon(o, "z", t, 0)
+			}
+		}
+	}
 	ks := []kind{
+		pair("AddPairs", pairBin(a.add)),
+		pair("SubPairs", pairBin(a.sub)),
+		pair("MulPairs", pairBin(a.mul)),
+		pair("AddSubPairs", func(t *triple, o *rec, alt bool) {
+			a.addsub(t.p(0), t.p(1))
+			a.canon(o, "sum", t, 0)
+			a.canon(o, "dif", t, 1)
+		}),
 		mk("Add", 9, bin(a.add)),
 		mk("Sub", 9, bin(a.sub)),
 		mk("Mul", 16, bin(a.mul)),
@@ -401,6 +478,7 @@ func b2b(b bool) byte {
 
 func TestVerifTranscriptField(t *testing.T) {
 	lib.Mandatory("c14/Field/fp25519:operand-boundary", "c14/Field/fp448:operand-boundary",
+		"c14/Field/fp25519:boundary-pair", "c14/Field/fp448:boundary-pair",
 		"c14/Field/fp25519:invsqrt-qr", "c14/Field/fp25519:invsqrt-nonqr",
 		"c14/Field/fp448:invsqrt-qr", "c14/Field/fp448:invsqrt-nonqr",
 		"c14/Field/fp25519:iszero-true", "c14/Field/fp448:iszero-true")
